@@ -32,7 +32,6 @@ type c14Tree struct {
 	cms      map[syntax.Comment]int32 // Comment nodes by value
 	shared   []string                 // paths of nodes reachable twice
 	typedNil int                      // interface fields holding a nil pointer
-	copies   int
 	lc       *c14Local
 	bit      uint8
 }
